@@ -17,7 +17,9 @@ EXTENDS DeepAgent, Json, IOUtils, TLCExt
 
 VARIABLES tid, l,
           cfgIds,      \* version -> tracepoint ids of that configuration (learned from the answers)
-          everInst     \* versions that were installed at some time while the agent was running
+          everInst,    \* versions that were installed at some time while the agent was running
+          nregs,       \* tracepoints currently registered in code (they belong to the agent OBJECT's configuration store)
+          instRegs     \* how many of them the handler was last given (0 again once a shutdown has emptied it)
 TraceLog == JsonDeserialize(IOEnv.TRACE_FILE)
 T == TraceLog[tid]
 E == T[l]
@@ -25,16 +27,22 @@ Live == l <= Len(T)
 Step == l' = l + 1 /\ UNCHANGED tid
 SeqToSet(q) == {q[i] : i \in 1..Len(q)}
 
-TraceInit == tid \in 1..Len(TraceLog) /\ TLCSet(tid, 0) /\ l = 1 /\ cfgIds = <<>> /\ everInst = {}
+TraceInit == tid \in 1..Len(TraceLog) /\ TLCSet(tid, 0) /\ l = 1 /\ cfgIds = <<>> /\ everInst = {} /\ nregs = 0 /\ instRegs = 0
              /\ phase = "new" /\ svc = 0 /\ hash = 0 /\ pollOpen = None /\ installed = 0 /\ toApply = {}
              /\ fired = <<>> /\ received = 0 /\ nhits = 0 /\ npolls = 0 /\ late = FALSE
 
 (* deep.start(): the first agent of the process, or a new one after the previous one was shut down *)
-TrStart == Live /\ E.ev = "start" /\ (Start \/ Restart) /\ Step /\ UNCHANGED <<cfgIds, everInst>>
+(* (again = TRUE: the SAME agent object is started once more - it still holds, and reports, its configuration)     *)
+TrStart == Live /\ E.ev = "start" /\ Step /\ UNCHANGED <<cfgIds, everInst, instRegs>>
+           /\ IF "again" \in DOMAIN E /\ E.again THEN Resume /\ UNCHANGED nregs
+                                                  ELSE (Start \/ Restart) /\ nregs' = 0
+(* the driver waited until the background tasks were idle: what the agent acts on is the configuration it reports *)
+TrSettled == Live /\ E.ev = "settled" /\ toApply = {} /\ (phase = "running" => (installed = hash /\ instRegs = nregs)) /\ Step
+             /\ UNCHANGED <<phase, svc, hash, pollOpen, installed, toApply, fired, received, nhits, npolls, late, cfgIds, everInst, nregs, instRegs>>
 (* the request carries the hash of the last configuration received (HashHonest) *)
-TrPollReq == Live /\ E.ev = "pollreq" /\ PollReq /\ E.hash = hash /\ Step /\ UNCHANGED <<cfgIds, everInst>>
+TrPollReq == Live /\ E.ev = "pollreq" /\ PollReq /\ E.hash = hash /\ Step /\ UNCHANGED <<cfgIds, everInst, nregs, instRegs>>
 TrPollFail == Live /\ E.ev = "pollfail" /\ pollOpen # None /\ pollOpen' = None /\ Step
-              /\ UNCHANGED <<phase, svc, hash, installed, toApply, fired, received, nhits, npolls, late, cfgIds, everInst>>
+              /\ UNCHANGED <<phase, svc, hash, installed, toApply, fired, received, nhits, npolls, late, cfgIds, everInst, nregs, instRegs>>
 (* an UPDATE answer: the service offers version v now (versions are numbered in the order they are first seen) *)
 TrPollUpdate ==
     /\ Live /\ E.ev = "pollresp" /\ E.kind = "update" /\ pollOpen # None
@@ -42,35 +50,42 @@ TrPollUpdate ==
     /\ svc' = E.v /\ hash' = E.v /\ toApply' = toApply \cup {E.v} /\ pollOpen' = None
     /\ cfgIds' = IF E.v <= Len(cfgIds) THEN cfgIds ELSE Append(cfgIds, SeqToSet(E.ids))
     /\ (E.v <= Len(cfgIds) => cfgIds[E.v] = SeqToSet(E.ids))
-    /\ Step /\ UNCHANGED <<phase, installed, fired, received, nhits, npolls, late, everInst>>
+    /\ Step /\ UNCHANGED <<phase, installed, fired, received, nhits, npolls, late, everInst, nregs, instRegs>>
 TrPollNoChange ==
     /\ Live /\ E.ev = "pollresp" /\ E.kind = "no_change" /\ pollOpen # None
     /\ pollOpen = hash                       \* nothing changed: the request carried the current hash
     /\ pollOpen' = None /\ Step
-    /\ UNCHANGED <<phase, svc, hash, installed, toApply, fired, received, nhits, npolls, late, cfgIds, everInst>>
+    /\ UNCHANGED <<phase, svc, hash, installed, toApply, fired, received, nhits, npolls, late, cfgIds, everInst, nregs, instRegs>>
 (* the handler is given a configuration: it is the configuration of the hash the agent reports (never an older one) *)
 TrInstalled ==
     /\ Live /\ E.ev = "installed"
     /\ IF hash = 0 THEN SeqToSet(E.ids) = {} ELSE SeqToSet(E.ids) = cfgIds[hash]
+    /\ ("regs" \in DOMAIN E => E.regs = nregs)       \* ... plus everything registered in code, alongside (C13)
     /\ installed' = (IF phase = "running" THEN hash ELSE 0) /\ toApply' = {}
-    /\ everInst' = IF phase = "running" /\ hash # 0 THEN everInst \cup {hash} ELSE everInst
-    /\ Step /\ UNCHANGED <<phase, svc, hash, pollOpen, fired, received, nhits, npolls, late, cfgIds>>
+    /\ instRegs' = (IF phase = "running" THEN nregs ELSE 0)
+    /\ everInst' = (IF phase = "running" /\ hash # 0 THEN everInst \cup {hash} ELSE everInst)
+                     \cup (IF phase = "running" /\ nregs > 0 THEN {0} ELSE {})      \* 0: "registrations were installed"
+    /\ Step /\ UNCHANGED <<phase, svc, hash, pollOpen, fired, received, nhits, npolls, late, cfgIds, nregs>>
 (* a snapshot is delivered: it names a tracepoint of a configuration that was installed while the agent ran *)
 TrRecv ==
     /\ Live /\ E.ev = "recv"
-    /\ \E v \in everInst : E.id \in cfgIds[v]
+    /\ IF "reg" \in DOMAIN E /\ E.reg THEN 0 \in everInst ELSE \E v \in everInst \ {0} : E.id \in cfgIds[v]
     /\ fired' = Append(fired, 1) /\ nhits' = nhits + 1 /\ received' = received + 1      \* Hit . Deliver
     /\ late' = (late \/ phase = "stopped")
-    /\ Step /\ UNCHANGED <<phase, svc, hash, pollOpen, installed, toApply, npolls, cfgIds, everInst>>
-TrSdBegin == Live /\ E.ev = "sdbegin" /\ ShutdownBegin /\ Step /\ UNCHANGED <<cfgIds, everInst>>
+    /\ Step /\ UNCHANGED <<phase, svc, hash, pollOpen, installed, toApply, npolls, cfgIds, everInst, nregs, instRegs>>
+TrSdBegin == Live /\ E.ev = "sdbegin" /\ ShutdownBegin /\ instRegs' = 0 /\ Step /\ UNCHANGED <<cfgIds, everInst, nregs>>
+(* register_tracepoint / unregister: the store changes at once, the handler is told by a background task *)
+TrRegister == Live /\ E.ev \in {"register", "unregister", "register_failed"} /\ Step
+              /\ nregs' = (IF E.ev = "register" THEN nregs + 1 ELSE nregs - 1)
+              /\ UNCHANGED <<phase, svc, hash, pollOpen, installed, toApply, fired, received, nhits, npolls, late, cfgIds, everInst, instRegs>>
 TrSdEnd == Live /\ E.ev = "sdend" /\ phase = "stopping" /\ pollOpen = None /\ phase' = "stopped" /\ Step
-           /\ UNCHANGED <<svc, hash, pollOpen, installed, toApply, fired, received, nhits, npolls, late, cfgIds, everInst>>
+           /\ UNCHANGED <<svc, hash, pollOpen, installed, toApply, fired, received, nhits, npolls, late, cfgIds, everInst, nregs, instRegs>>
 (* anything that still reaches the service after shutdown() returned *)
 TrLate == Live /\ E.ev \in {"pollreq"} /\ phase = "stopped" /\ late' = TRUE /\ Step
-          /\ UNCHANGED <<phase, svc, hash, pollOpen, installed, toApply, fired, received, nhits, npolls, cfgIds, everInst>>
+          /\ UNCHANGED <<phase, svc, hash, pollOpen, installed, toApply, fired, received, nhits, npolls, cfgIds, everInst, nregs, instRegs>>
 
 TraceNext == TrStart \/ TrPollReq \/ TrPollFail \/ TrPollUpdate \/ TrPollNoChange \/ TrInstalled \/ TrRecv
-             \/ TrSdBegin \/ TrSdEnd \/ TrLate
+             \/ TrSdBegin \/ TrSdEnd \/ TrLate \/ TrSettled \/ TrRegister
 TraceInvariant == NothingAfterShutdown /\ NoSpuriousSnapshots /\ HashIsReceivedConfig /\ HashMeansInstalled
 INSTANCE TraceCommon
 =============================================================================
